@@ -455,6 +455,14 @@ def choosesrv (w : World) (l : List Nat) : World × Option Nat :=
     | none => w) w
   (w, r.1.bind fun i => l[i]?)
 
+/-- LoopPrevention: on for the server, or unset there and on globally; and the client block's
+    name equals the server block's name (`strcmp`) -/
+def loopPrevents (opts : Options) (cc : CliConf) (sc : SrvConf) : Bool :=
+  (sc.loopPrev = 1 || (sc.loopPrev = 255 && opts.loopPrev)) && cc.name == sc.name
+
+/-- the AddTTL value in effect towards a peer: its own if set, else the global one -/
+def effAddTtl (opts : Options) (peerAddTtl : Nat) : Nat := if peerAddTtl ≠ 0 then peerAddTtl else opts.addttl
+
 inductive Outcome | ret0 | ret1
 deriving DecidableEq, Repr
 
@@ -524,7 +532,7 @@ def radsrvCore (w : World) (o ci : Nat) (cc : CliConf) (m0 : Msg) : World :=
                           else exit w
                         | some si =>
                           let s := (getSrv w si).getD { conf := { name := [], type := 0, secret := [], retryCount := 0, retryInterval := 0 }, ss := 0 }
-                          if (s.conf.loopPrev = 1 ∨ (s.conf.loopPrev = 255 ∧ w.opts.loopPrev)) ∧ cc.name = s.conf.name then exit w
+                          if loopPrevents w.opts cc s.conf then exit w
                           else
                             -- CHAP-Challenge completion
                             let as4 := if as3.any (·.t = 3) ∧ !(as3.any (·.t = 60)) then as3 ++ [{ t := 60, v := m0.auth }] else as3
